@@ -925,7 +925,7 @@ def minimise(found, budget_s=240.0):
                        ('preexisting_output', False), ('conserve', None), ('save_every', 0.0), ('mixer', None),
                        ('measure_at_checkpoints', False), ('max_hours', None), ('N_sweeps_check', 1),
                        ('chi_list', None), ('group_sites', 1), ('measure_initial', True), ('save_stats', True), ('save_psi', True), ('canonicalize', False), ('wrapped_measurement', False), ('truncerr_measurement', False), ('start_time', 0.0), ('preserve_norm', None), ('combine', False), ('diag_method', 'default'), ('max_S_err', None), ('max_E_err', None), ('max_sweeps', 3), ('n_outer', 3), ('N_steps', 1), ('chi', 8), ('model', 'TFIChain'),
-                       ('order', 2), ('neighbour', False), ('out_stem', 'results'), ('skip_if_output_exists', False), ('disorder', None), ('random_seed', None)]
+                       ('order', 2), ('neighbour', False), ('out_stem', 'results'), ('skip_if_output_exists', False), ('disorder', None), ('random_seed', None), ('no_default_measurements', False), ('late_onset', 1)]
     for key, val in simplifications:
         if key in best['cfg'] and best['cfg'][key] != val and best['cfg'][key] is not None or (
                 key in best['cfg'] and val is None and best['cfg'][key] is not None):
